@@ -21,11 +21,6 @@ class _Subst(ast.NodeTransformer):
             n.attr = self.name_map[n.attr]
         return n
 
-    def visit_Name(self, n):
-        if n.id in self.name_map:
-            n.id = self.name_map[n.id]
-        return n
-
     def visit_Constant(self, n):
         if isinstance(n.value, str) and n.value in self.name_map:
             n.value = self.name_map[n.value]
